@@ -14,6 +14,9 @@ import (
 	"time"
 	"unicode/utf8"
 
+	"github.com/docker/cli/cli/streams"
+	"github.com/spf13/cobra"
+
 	"github.com/tdakkota/docker-logql/internal/lokiapi"
 	"github.com/tdakkota/docker-logql/internal/zzverif/fakedocker"
 	"github.com/tdakkota/docker-logql/internal/zzverif/vkit"
@@ -413,7 +416,7 @@ func c15Run(r *vkit.Run) {
 		fn()
 		r.NonTrivial()
 	})
-	r.Note("bounds", fmt.Sprintf("0..%d containers x 3 entry-count patterns x 3 timestamp patterns (distinct interleaved, all equal, reversed) x 21 message offsets x up to 3 stream rotations x 8 option combinations; plus all results of 2 streams x <=2 entries over 2 timestamps x 21 messages (1/%d lattice on the second stream) in 4 stream-identity variants; every byte value 0..255 alone, doubled and inside a message; end to end (argv -> fake daemon -> printed bytes): 1-3 containers x 4 timestamp patterns (one going back in time inside a container) x 10 message offsets (two of 16 KiB and more without a line break) x 20 spellings of the --timestamp/-t, --container/-c, --color flags incl. their defaults, and four kinds of result without entries", maxN, step))
+	r.Note("bounds", fmt.Sprintf("0..%d containers x 3 entry-count patterns x 3 timestamp patterns (distinct interleaved, all equal, reversed) x 21 message offsets x up to 3 stream rotations x 8 option combinations; plus all results of 2 streams x <=2 entries over 2 timestamps x 21 messages (1/%d lattice on the second stream) in 4 stream-identity variants; every byte value 0..255 alone, doubled and inside a message; end to end (argv -> fake daemon -> printed bytes): 1-3 containers x 4 timestamp patterns (one going back in time inside a container) x 11 message offsets (two of 16 KiB and more without a line break, one with escape sequences of its own) x 20 spellings of the --timestamp/-t, --container/-c, --color flags incl. their defaults, and four kinds of result without entries; about a third of these also through rootCmd of main.go under a top-level command that carries the CLI's stdout stream (the plugin host's wiring); --limit -1..10 over 9 entries of 3 containers in 2 spellings, both ways of reaching the command", maxN, step))
 }
 
 // ---- end to end: the command itself, from argv over a fake daemon to the printed bytes ----
@@ -433,6 +436,12 @@ type c15E2EInput struct {
 	// ReadChunk > 0: the daemon's answer arrives in blocks of that many bytes, a Read never crosses a block boundary
 	// (what a buffered HTTP body does); 0: a Read returns whatever fits.
 	ReadChunk int `json:"read_chunk,omitempty"`
+	// Limit: what the --limit flag among Args means (nil: no such flag). A positive limit keeps the first min(L, N)
+	// entries in time order, any other value keeps all (C08's last sentence, here through the command's own wiring).
+	Limit *int `json:"limit,omitempty"`
+	// Plugin: the command is reached the way the plugin host reaches it (a top-level command whose output is the CLI's
+	// stdout stream, not a terminal; below it rootCmd of main.go; below that "query"), instead of queryCmd alone.
+	Plugin bool `json:"plugin,omitempty"`
 	// Big > 0: instead of Logs, that many containers with 700 entries each (generated; output well beyond 64 KiB)
 	Big int `json:"big,omitempty"`
 }
@@ -479,21 +488,60 @@ func c15E2EExec(in c15E2EInput) (o c15Obs) {
 			return n, nil
 		}
 	}
-	cmd := queryCmd(c16CLI{c: fake})
 	var out bytes.Buffer
-	cmd.SetOut(&out)
-	cmd.SetErr(&bytes.Buffer{})
-	cmd.SilenceUsage, cmd.SilenceErrors = true, true
 	query := in.Query
 	if query == "" {
 		query = `{}`
 	}
-	cmd.SetArgs(append(append([]string{"--start=1699999000", "--end=1700001000"}, in.Args...), query))
+	args := append(append([]string{"--start=1699999000", "--end=1700001000"}, in.Args...), query)
+	var cmd *cobra.Command
+	if in.Plugin {
+		// what plugin.Run builds around rootCmd (cli-plugins/plugin.newPluginCommand): the streams of the CLI on a
+		// top-level command, the plugin's root command below it
+		dcli := c16CLI{c: fake, out: streams.NewOut(&out)}
+		cmd = &cobra.Command{Use: "docker [OPTIONS] logql [ARG...]", TraverseChildren: true}
+		cmd.SetOut(dcli.Out())
+		cmd.SetErr(&bytes.Buffer{})
+		cmd.AddCommand(rootCmd(dcli))
+		args = append([]string{"logql", "query"}, args...)
+	} else {
+		cmd = queryCmd(c16CLI{c: fake})
+		cmd.SetOut(&out)
+		cmd.SetErr(&bytes.Buffer{})
+	}
+	cmd.SilenceUsage, cmd.SilenceErrors = true, true
+	cmd.SetArgs(args)
 	if err := cmd.ExecuteContext(context.Background()); err != nil {
 		o.Err = err.Error()
 	}
 	o.Out = out.String()
 	return o
+}
+
+// c15FirstN keeps the n earliest entries (timestamps are distinct where this is used).
+func c15FirstN(logs []c15Stream, n int) []c15Stream {
+	var all []int64
+	for _, l := range logs {
+		for _, e := range l.Entries {
+			all = append(all, e.TS)
+		}
+	}
+	if n >= len(all) {
+		return logs
+	}
+	sort.Slice(all, func(i, j int) bool { return all[i] < all[j] })
+	cut := all[n-1]
+	var out []c15Stream
+	for _, l := range logs {
+		k := c15Stream{Container: l.Container}
+		for _, e := range l.Entries {
+			if e.TS <= cut {
+				k.Entries = append(k.Entries, e)
+			}
+		}
+		out = append(out, k)
+	}
+	return out
 }
 
 func c15E2ECheck(r *vkit.Run, in c15E2EInput) {
@@ -507,6 +555,9 @@ func c15E2ECheck(r *vkit.Run, in c15E2EInput) {
 	if in.Empty {
 		logs = nil
 	}
+	if in.Limit != nil && *in.Limit > 0 {
+		logs = c15FirstN(logs, *in.Limit)
+	}
 	c15Judge(r, "C15/e2e", c15Input{Streams: logs, Timestamp: in.Timestamp, Container: in.Container, Color: in.Color}, in, obs)
 }
 
@@ -514,7 +565,9 @@ func c15E2ERun(r *vkit.Run, one func(fn func())) {
 	base := int64(1700000000) * 1e9
 	msgs := []string{"m", "m\n", "m\r\n", "", "a\nb", " m ", "\xffm\xfe", "100%\n\n",
 		// messages as long as the daemon's own line buffer and longer, without a line break at the end
-		strings.Repeat("L", 16384), strings.Repeat("M", 20000) + " end"}
+		strings.Repeat("L", 16384), strings.Repeat("M", 20000) + " end",
+		// a message that carries terminal escape sequences of its own
+		"\x1b[31mred\x1b[0m \x1b[2Kx"}
 	type flagForm struct {
 		args       []string
 		ts, ct, co bool
@@ -558,6 +611,12 @@ func c15E2ERun(r *vkit.Run, one func(fn func())) {
 				for fi, f := range forms {
 					in := c15E2EInput{Args: f.args, Timestamp: f.ts, Container: f.ct, Color: f.co, Logs: logs}
 					one(func() { c15E2ECheck(r, in) })
+					// the same reached through the plugin's root command, the way the plugin host runs it
+					if fi%3 == mo%3 {
+						inp := in
+						inp.Plugin = true
+						one(func() { c15E2ECheck(r, inp) })
+					}
 					// the same over a transport that hands the answer out in blocks (a frame header is cut at every offset
 					// sooner or later: block sizes 1, 3 and 13 against frames of 40-odd bytes)
 					if fi%4 == mo%4 {
@@ -578,6 +637,34 @@ func c15E2ERun(r *vkit.Run, one func(fn func())) {
 		for _, logs := range [][]c15Stream{{dupA}, {dupA, dupB}} {
 			in := c15E2EInput{Args: f.args, Timestamp: f.ts, Container: f.ct, Color: f.co, Logs: logs}
 			one(func() { c15E2ECheck(r, in) })
+			in.Plugin = true
+			one(func() { c15E2ECheck(r, in) })
+		}
+	}
+	// --limit through the command's own wiring: 3 containers x 3 entries with distinct interleaved timestamps, every
+	// limit from -1 to one above the number of entries, in both flag spellings, alone and through the plugin's root
+	{
+		var logs []c15Stream
+		for i := 0; i < 3; i++ {
+			s := c15Stream{Container: fmt.Sprintf("c%d", i)}
+			for j := 0; j < 3; j++ {
+				s.Entries = append(s.Entries, c15Entry{TS: base + int64(j*3+(2-i))*1000000007, Msg: fmt.Sprintf("m%d%d", i, j)})
+			}
+			logs = append(logs, s)
+		}
+		for fi, f := range forms {
+			if fi%4 != 0 {
+				continue
+			}
+			for lim := -1; lim <= 10; lim++ {
+				for _, sp := range [][]string{{fmt.Sprintf("--limit=%d", lim)}, {"--limit", fmt.Sprint(lim)}} {
+					for _, plug := range []bool{false, true} {
+						l := lim
+						in := c15E2EInput{Args: append(append([]string{}, f.args...), sp...), Timestamp: f.ts, Container: f.ct, Color: f.co, Logs: logs, Limit: &l, Plugin: plug}
+						one(func() { c15E2ECheck(r, in) })
+					}
+				}
+			}
 		}
 	}
 	// large results: 700 and 1400 entries (output beyond 32 KiB and 64 KiB), read whole and in blocks of 4096 and 1000 bytes
@@ -589,6 +676,10 @@ func c15E2ERun(r *vkit.Run, one func(fn func())) {
 			for _, chunk := range []int{0, 4096, 1000} {
 				in := c15E2EInput{Args: f.args, Timestamp: f.ts, Container: f.ct, Color: f.co, Big: big, ReadChunk: chunk}
 				one(func() { c15E2ECheck(r, in) })
+				if chunk == 4096 {
+					in.Plugin = true
+					one(func() { c15E2ECheck(r, in) })
+				}
 			}
 		}
 	}
@@ -603,6 +694,8 @@ func c15E2ERun(r *vkit.Run, one func(fn func())) {
 		} {
 			in := e
 			in.Args, in.Timestamp, in.Container, in.Color = f.args, f.ts, f.ct, f.co
+			one(func() { c15E2ECheck(r, in) })
+			in.Plugin = true
 			one(func() { c15E2ECheck(r, in) })
 		}
 	}
